@@ -215,7 +215,8 @@ class QueryPlanner:
     def get_cte_result(self, node):
         # result of the planned common table expression, if the table is a reference to it (a name without database)
         if isinstance(node, Identifier) and len(node.parts) == 1:
-            return self.cte_results.get(node.parts[0])
+            # names are not case sensitive
+            return self.cte_results.get(node.parts[0].lower())
 
     def resolve_database_table(self, node: Identifier):
         # resolves integration name and table name
@@ -255,11 +256,11 @@ class QueryPlanner:
             if isinstance(node, Select) and node.cte is not None:
                 # is called before the expressions and the references to them are visited
                 for cte in node.cte:
-                    cte_names.add(cte.name.parts[-1])
+                    cte_names.add(cte.name.parts[-1].lower())
 
             if is_table:
                 if isinstance(node, ast.Identifier):
-                    if len(node.parts) == 1 and node.parts[0] in cte_names:
+                    if len(node.parts) == 1 and node.parts[0].lower() in cte_names:
                         # cte names are not mdb objects and not tables: the tables are inside of the expression
                         return
 
@@ -808,7 +809,7 @@ class QueryPlanner:
 
         for cte in query.cte:
             step = self.plan_select(cte.query)
-            name = cte.name.parts[-1]
+            name = cte.name.parts[-1].lower()
             self.cte_results[name] = step.result
 
         # the expressions are planned: they are not a part of the query anymore
